@@ -17,13 +17,13 @@ RULE = ("Label vectors with every class 0..K-1 present (K=1..8 and 9..24, N=K..2
         "Non-trivial: K>=3, >=1 error, unequal class sizes; distinct = case hash.")
 ASSUMPTIONS = [
     "domain of the statement: every class 0..K-1 occurs among the true labels, predictions within 0..K-1, equal lengths",
-    "normalize is judged on columns with |mean|/std <= 1e4 (beyond that the subtraction is ill-conditioned) within 1e-9",
+    "normalize is judged with a tolerance 1e-9 + 32*eps*|mean|/std (the conditioning of the subtraction); columns where that exceeds 0.25 are skipped",
 ]
 BUDGET = {
     "quick": {"cases": 40000, "seconds": 90, "shards": 8},
     "thorough": {"cases": 2000000, "seconds": 900, "shards": 16},
 }
-REQUIRED_OBS = ["refilled_in_place_cases", "K>=17_uint8", "accuracy_checked", "confusion_checked", "per_label_checked", "purity_checked", "normalize_checked", "all_correct_cases",
+REQUIRED_OBS = ["normalize_ill_conditioned_column_judged", "refilled_in_place_cases", "K>=17_uint8", "accuracy_checked", "confusion_checked", "per_label_checked", "purity_checked", "normalize_checked", "all_correct_cases",
                 "all_wrong_cases", "K=1", "purity_one_with_errors"]
 MIN_NONTRIVIAL = 500
 
@@ -32,7 +32,11 @@ def generate(rng, tier, idx):
     if idx % 8 == 7:
         n, d = int(rng.integers(2, 40)), int(rng.integers(1, 6))
         A = rng.normal(size=(n, d)) * (10.0 ** rng.integers(-3, 4, size=(1, d))) + rng.normal(size=(1, d)) * rng.choice([0, 1, 100])
-        if rng.random() < 0.3:        # whole matrix at a tiny / huge scale: a non-constant column stays non-constant whatever its spread
+        if rng.random() < 0.03:
+            # a genuinely non-constant column whose spread is tiny beside its offset, many rows (a "constant if std <= n*eps*|mean|" guard bites here)
+            n = 2000
+            A = 1e6 * float(rng.choice([1.0, -3.0, 40.0])) + rng.uniform(-1, 1, size=(n, d)) * 3e-7 * float(rng.choice([1.0, 3.0]))
+        elif rng.random() < 0.3:        # whole matrix at a tiny / huge scale: a non-constant column stays non-constant whatever its spread
             A = rng.normal(size=(n, d)) * (10.0 ** float(rng.choice([-12, -10, -9, -8, -6, 6, 9, 12])))
         if rng.random() < 0.3:
             A[:, int(rng.integers(0, d))] = float(rng.normal())     # a constant column
@@ -84,11 +88,19 @@ def check(case):
             mean = math.fsum(col) / len(col)
             var = math.fsum((v - mean) ** 2 for v in col) / len(col)
             std = math.sqrt(var)
-            if std == 0 or len(set(col)) == 1 or abs(mean) / std > 1e4:
+            if std == 0 or len(set(col)) == 1:
+                continue
+            # conditioning of (x-mean)/std: rounding of the mean and of the subtraction is ~eps*|mean| absolute, i.e. eps*|mean|/std
+            # relative to the result's scale; columns where even that exceeds 25% are not judged
+            cond = 32 * 2.220446049250313e-16 * abs(mean) / std
+            if cond > 0.25:
+                res.see("normalize_column_too_ill_conditioned")
                 continue
             ncols += 1
             want = np.array([(v - mean) / std for v in col])
-            if not np.allclose(out[:, j], want, rtol=1e-9, atol=1e-9):
+            if cond > 1e-9:
+                res.see("normalize_ill_conditioned_column_judged")
+            if not np.allclose(out[:, j], want, rtol=1e-9 + cond, atol=1e-9 + cond):
                 k = int(np.argmax(np.abs(out[:, j] - want)))
                 res.violate("normalize", "C20/normalize", f"column {j} row {k}: got {out[k, j]!r}, (x-mean)/std = {want[k]!r}")
                 return res
